@@ -305,6 +305,8 @@ func (c *Ctx) forkPanic(st *State, ok *Term, msg string) bool {
 
 func (c *Ctx) finish(st *State, r *PathResult) {
 	r.Steps = st.steps
+	r.Proto = st.proto
+	r.PC = st.pc
 	r.Reach = st.reach
 	r.Notes = st.notes
 	r.Case = c.cfg.CaseName
